@@ -44,6 +44,7 @@ type Env struct {
 	chunkI int // discovered insert chunk boundary (largest n with one INSERT statement)
 	chunkD int
 	cfgKey string
+	pool0  int // connection pool size the registry was built with
 }
 
 // logProbe turns the engine's log lines into reach probes.
@@ -299,4 +300,29 @@ func (e *Env) NewNetwork(seed uint64) {
 	u.SetVariant(uuid.VariantRFC4122)
 	e.AddNetwork(u)
 	e.Reg.Persister().SetNetwork(u)
+}
+
+// SetPool limits the registry's connection pool to n connections for the rest
+// of the run (a tuning knob of the deployment: nothing a request does may
+// depend on a second connection being available while it holds one). n <= 0
+// restores the size the registry was built with.
+func (e *Env) SetPool(n int) {
+	h, ok := any(e.Reg.Persister().Connection(e.Ctx).Store).(interface{ SQLDB() *sql.DB })
+	if !ok || h.SQLDB() == nil {
+		e.T.Fatalf("harness: the connection's store has no pool to size")
+	}
+	s := h.SQLDB()
+	if e.pool0 == 0 {
+		e.pool0 = s.Stats().MaxOpenConnections
+		if e.pool0 == 0 {
+			e.pool0 = -1 // unlimited
+		}
+	}
+	if n <= 0 {
+		n = e.pool0
+		if n < 0 {
+			n = 0
+		}
+	}
+	s.SetMaxOpenConns(n)
 }
